@@ -54,6 +54,23 @@ def gen_spec(rng, bytes_mode):
     return s + conv, conv, nstars, key
 
 
+WILD = [0.3]   # share of numeric arguments drawn at random instead of from the fixed lists
+
+
+def rand_int(rng):
+    v = rng.getrandbits(rng.choice([1, 2, 3, 5, 8, 16, 31, 32, 33, 63, 64, 65, 100, 200]))
+    return -v if rng.random() < .4 else v
+
+
+def rand_float(rng):
+    k = rng.random()
+    if k < .4:   # any bit pattern (subnormals, huge, tiny, NaN payloads)
+        return struct.unpack("<d", struct.pack("<Q", rng.getrandbits(64)))[0]
+    if k < .7:   # short decimals ending in 5: rounding boundaries of %f/%e/%g
+        return float("%s%d.%s5" % (rng.choice(["", "-"]), rng.randrange(0, 10 ** rng.randint(0, 7)), "".join(rng.choice("0123456789") for _ in range(rng.randint(0, 6)))))
+    return float("%s%de%d" % (rng.choice(["", "-"]), rng.randrange(1, 10 ** rng.randint(1, 17)), rng.randint(-30, 30)))
+
+
 def make_case(rng, bytes_mode):
     """Returns (template, python_args, harness_args) or None."""
     nspec = rng.choice([1, 1, 1, 2, 3])
@@ -72,12 +89,13 @@ def make_case(rng, bytes_mode):
             w = rng.choice([0, 1, 5, 12, -8, 3])
             pyargs.append(w)
             hargs.append("i:%d" % w)
+        wild = rng.random() < WILD[0]
         if conv in "diuoxX":
-            v = rng.choice(INTS)
+            v = rand_int(rng) if wild else rng.choice(INTS)
             pyargs.append(v)
             hargs.append("i:%d" % v)
         elif conv in "eEfFgG":
-            v = rng.choice(FLOATS)
+            v = rand_float(rng) if wild else rng.choice(FLOATS)
             pyargs.append(v)
             hargs.append("f:%d" % bits(v))
         elif conv == "c":
